@@ -137,6 +137,32 @@ def big_grid_clause(m, ant, rng):
     return None
 
 
+def spelling_clause(m):
+    """the same request written in other ways — whole numbers given as Python integers or as integer arrays, lists, tuples or
+    arrays of floats — names the same field points and must give the same field (1e-12): nothing may depend on the
+    number type of the request"""
+    allp = np.array([list(sg.p1) for g in m.geo for sg in g.segments] + [list(sg.p2) for g in m.geo for sg in g.segments], dtype=float)
+    segmax = max(float(sg.seg_len) for g in m.geo for sg in g.segments)
+    c = allp.mean(axis=0)
+    start = [int(math.floor(c[0])) + 1, int(math.floor(c[1])) - 1, int(math.ceil(float(allp[:, 2].max()) + 3 * segmax)) + 1]
+    inc, n = [1, 2, 1], [2, 1, 2]
+    ref = None
+    for name, mk in (('floats', lambda v: [float(x) for x in v]), ('python integers', lambda v: [int(x) for x in v]),
+                     ('integer arrays', lambda v: np.array(v, dtype=int)), ('float arrays', lambda v: np.array(v, dtype=float)),
+                     ('tuples of integers', lambda v: tuple(int(x) for x in v))):
+        m.compute_near_field(mk(start), mk(inc), [int(x) for x in n] if name != 'integer arrays' else np.array(n, dtype=int))
+        E, H = np.array(m.e_field, dtype=complex), np.array(m.h_field, dtype=complex)
+        if ref is None:
+            ref = (E, H)
+            continue
+        for lab, a, b in (('E', ref[0], E), ('H', ref[1], H)):
+            sc = max(float(np.max(np.abs(a))), 1e-300)
+            if a.shape != b.shape or np.max(np.abs(a - b)) > 1e-12 * sc:
+                return ('near-field request start=%r increment=%r counts=%r written as %s: %s differs by %.3g (relative) from the same '
+                        'request written with floats' % (start, inc, n, name, lab, (np.max(np.abs(a - b)) / sc) if a.shape == b.shape else float('nan')))
+    return None
+
+
 def impl_near(m, pt, pwr=None):
     kw = {} if pwr is None else dict(pwr=pwr)
     m.compute_near_field(pt, [1.0, 1.0, 1.0], [1, 1, 1], **kw)
@@ -228,6 +254,10 @@ def replay_big(rp):
 def replay(rp):
     if rp.get('kind') == 'big-grid':
         return replay_big(rp)
+    if rp.get('kind') == 'spelling':
+        bad = spelling_clause(build(rp['ant'], rp['src_seed']))
+        print('replay ->', bad or 'property holds')
+        return 1 if bad else 0
     k = rp.get('kind')
     if k == 'near':
         bad = property_on_impl(rp['ant'], rp['src_seed'], rp['pts'], rp.get('pwr'))
@@ -284,6 +314,11 @@ def run(ck):
             if bad:
                 viol.append(dict(kind='big-grid', ant=ant, src_seed=ss, observed=bad))
                 bad = None
+        if not bad and i % 4 == 2:
+            ck.count('spelling_cases')
+            sb = spelling_clause(build(ant, ss))
+            if sb:
+                viol.append(dict(kind='spelling', ant=ant, src_seed=ss, observed=sb))
         if bad:
             viol.append(dict(kind='near', ant=ant, src_seed=ss, pts=pts, pwr=pwr, observed=bad))
     for i in range(8 if ck.tier == 'quick' else 100):
